@@ -115,3 +115,12 @@ Lemma compute_in_place_refuted_lemma :
   /\ c_last [11; 12] Cref_bad [0%nat] 1%nat <> c_last [11; 12] Cref_bad [] 1%nat
   /\ c_last [11; 12] Cref_good [0%nat] 1%nat = c_last [11; 12] Cref_good [] 1%nat.
 Proof. vm_compute. repeat split; congruence. Qed.
+
+(* a process-wide memo shared by all geometries (operand 2: hidden; operand 0 = geometry A, 1 = geometry B): point location
+   on A writes it, point location on B reads it.  The frame rule gives no guarantee, and indeed: *)
+Definition Cref_memo : list cop := [ {| c_reads := [0%nat; 2%nat]; c_writes := [2%nat]; c_fresh := 700 |}; {| c_reads := [1%nat; 2%nat]; c_writes := [2%nat]; c_fresh := 800 |} ].
+Definition Cref_nomemo : list cop := [ {| c_reads := [0%nat]; c_writes := []; c_fresh := 700 |}; {| c_reads := [1%nat]; c_writes := []; c_fresh := 800 |} ].
+Lemma process_wide_memo_refuted_lemma :
+  fst (c_last [11; 12; 13] Cref_memo [0%nat] 1%nat) <> fst (c_last [11; 12; 13] Cref_memo [] 1%nat)
+  /\ c_last [11; 12; 13] Cref_nomemo [0%nat] 1%nat = c_last [11; 12; 13] Cref_nomemo [] 1%nat.
+Proof. vm_compute. split; congruence. Qed.
